@@ -11,7 +11,10 @@ FUNCTIONS = ["Table._make_cache", "Table._get_cache", "Table._get_row_cache", "T
              # the unique row labels: third result of _make_cache, handed out unchanged by cols.get_index_unique
              "Table._make_cache@labels", "_ColView.get_index_unique@forwards-labels",
              # a freshly constructed table (every derivation builds its result this way) has no lookup tables: CacheOK holds trivially at birth
-             "Table.__init__@unchecked"]
+             "Table.__init__@unchecked",
+             # t[col, row] and t[col, row] = v carry their own copies of the designator dispatch (lookup-table shortcut first): extracted as blocks
+             "Table.__getitem__@designator-block-str", "Table.__getitem__@designator-block-tuple2", "Table.__getitem__@designator-block-tuple3",
+             "Table.__setitem__@designator-block-str", "Table.__setitem__@designator-block-tuple2", "Table.__setitem__@designator-block-tuple3"]
 RAC = "rac/c07.py"
 RAC_BUDGET = {"quick": 60, "thorough": 900}
 RAC_MIN = {"quick": 8400, "thorough": 8400}      # fewer run-time evaluations than this = the harness skipped its work: checker broken, not "held"
@@ -40,6 +43,9 @@ ASSUMPTIONS = [
     "strictness of prefix_count on the rows carrying the name is re-derived from step + monotonicity on every run",
     "_append_row / _concatenate_table: no claim on an exception raised half way through the column loop (the table is then "
     "non-rectangular: C14)",
+    "designator blocks of __getitem__ / __setitem__: a text that IS a row name parses to (itself, no count, offset 0) -- spelling 1 of the proved splitter for names free of "
+    "':' '<' '>' -- so that the lookup-table shortcut (row, 0) agrees with the parsed reading; a pair designator used as a dictionary key is the lookup key of (name, count), "
+    "a triple is never equal to a pair (Python tuple equality), stated as preconditions",
     "text designators: names / patterns contain none of the characters ':' '<' '>' (the alphabet of the three separators; with one of them the spellings of the "
     "statement are ambiguous), counts and offsets are texts int() accepts; the first-occurrence facts the path obligations use are proved per form from the form's hypotheses",
     "column arrays are not shared with another table that mutates them in place (row slices and _copy share arrays)",
@@ -51,11 +57,12 @@ ASSUMPTIONS = [
     "(prefix counts strictly increase on the rows carrying the name)",
 ]
 BOUNDED = [
-    "WHICH cell a write table[col, row] = v reaches (row-designator dispatch in __setitem__): run-time only "
-    "(all update sequences of length <=2 on all index columns of length <=3/4, cache warmed before each update)",
-    "__getitem__/__setitem__ row-designator dispatch, the label round trip get_index_unique -> get_index on real tables (fixed-width string columns included), text designators on tables built with other separators or with names containing "
-    "a separator character: run-time only (all designator spellings, reads and writes); t // row and rows.get_index(row) are proved to resolve "
-    "the parsed / given (name, count, offset) against the current index column, and checked at run time as well",
+    "the store col[idx] = v / the read col[idx] themselves (numpy), row SELECTORS (slices, lists) inside t[col, rows] (C08), the evaluation of a column "
+    "expression in t['expr', row]: run-time only (all update sequences of length <=2 on all index columns of length <=3/4, cache warmed before each update); "
+    "WHICH position a designator reaches inside t[col, row] and t[col, row] = v is proved (designator blocks)",
+    "the label round trip get_index_unique -> get_index on real tables (fixed-width string columns included), text designators on tables built with other "
+    "separators or with names containing a separator character: run-time only (all designator spellings, reads and writes); t // row and rows.get_index(row) are proved "
+    "to resolve the parsed / given (name, count, offset) against the current index column, and checked at run time as well",
 ]
 EXPLANATION = ("proved for every index column, name, count and offset: a designator given as a position, a text, a pair (name, count) or a triple (name, count, offset) is resolved by Table._get_row_index -- and hence by t // row and t.rows.get_index(row), which forward to it unchanged -- to the position of the count-th occurrence of the name on the CURRENT index column plus the offset, KeyError exactly when there is none (for a text: of the triple _split_name_count_offset makes of it, assumed); the cache built by _make_cache is complete, sound and "
                "count-exact w.r.t. a scan (prefix-count specification function), _get_cache establishes/keeps CacheOK, "
@@ -65,6 +72,5 @@ EXPLANATION = ("proved for every index column, name, count and offset: a designa
                "may have changed, the lookup tables end up dropped -- before the store when nothing rebuilds them in between, after it "
                "otherwise -- and a store into any other column leaves them right: column-wise frame); every syntactic store into a "
                "table's data in the module sits in one of the methods carrying the invariant")
-LEVEL_TEXT = ("Mixed: the four cache functions and the class invariant across the five mutators are proved (z3); which cell a "
-              "write reaches is a run-time contract check; the unique labels are proved as values, their round trip composed from proved contracts and checked at run time against a linear-scan oracle. Never claimed as proof.")
+LEVEL_TEXT = ("Mixed: the four cache functions and the class invariant across the five mutators are proved (z3); which position a designator reaches inside t[col, row] / t[col, row] = v is proved as blocks, the numpy store itself is run-time checked; the unique labels are proved as values, their round trip composed from proved contracts and checked at run time against a linear-scan oracle. Never claimed as proof.")
 LEVEL_NOTE = "See TRUSTED/BOUNDED in the evidence file."
